@@ -126,3 +126,39 @@ CHECKS["C16"] = {
  "note": DP_NOTE + " One pipeline per scenario: concurrent applies to different pipelines are not exercised.",
  "technique": "TLC trace validation of real provisioning + lifecycle traces with the apply enumerated over change kinds and script positions"}
 NOT_APPLICABLE = {}
+
+# ---- additions of the build session (appended to the level texts by mkmanifest.py, also for checks whose
+# manifest entry lives in checks/*.manifest.json)
+ADDITIONS = {
+    "C01": (" Mechanism level: V1AckChain.tla and V2MultiAck.tla are model-checked exhaustively, and every complete voting "
+    "history TLC exports from V2MultiAck.tla (single positions and runs, any parent call failing, votes continuing after a failure) is "
+    "replayed on the REAL v2 fan-out arbiter (verif-tagged hook) with calls, return values and release cursor compared. Scenario families: "
+    "TLC schedules, corner histories, exhaustive choice exploration (incl. a mid-batch rejection under fan-out with a failing dead-letter "
+    "write), the outcome x fault matrix (every outcome vector of a 3-record flow x one of 32 boundary faults incl. io.EOF / context.Canceled "
+    "identities, position-write failures, stops with a DLQ write in flight), seeded random."),
+    "C04": (" Also: chained processors, the holes family (one batch of 5..9 records through two chained processors, every "
+    "subset of one or two records taken out by the first), the outcome x fault matrix focused on ack-path faults (position write begin / "
+    "set / commit failures, empty positions, ack stream failures) and the V2MultiAck histories replayed on the real fan-out arbiter."),
+    "C05": " Families as C04, incl. the holes family over batches of 5..9 records.",
+    "C07": (" The rejection patterns include filtered records (positive outcomes of the window); the outcome x fault matrix is "
+    "focused on DLQ faults (DLQ stream ending with io.EOF / context.Canceled / plain errors, stops with a dead-letter write in flight) and "
+    "DlqStops is evaluated at the end of every run nobody stopped."),
+    "C08": " Also the holes family (batches of 5 and 8 records through two chained processors).",
+    "C09": (" CondMerge.tla also enumerates condition-evaluation errors and short outputs with exact expectations; the outcome x "
+    "fault matrix (an error from any call) is run for NoPanic / NoHang."),
+    "C10": (" Recovery attempts are counted within the configured window (RecoveryBounded is windowed); failures spaced further "
+    "apart than back-off + window must each be recovered (TransientRecovers)."),
+    "C12": " A forced stop is also issued during the recovery back-off (no live run) on both engines.",
+    "C13": (" Also: a request cancelled while the node is already opening the new processor, followed by further requests - "
+    "each caller must get the result of its own request."),
+    "C14": (" Corner histories with wide reference lists (3 connectors, 3 + 3 processors): every entry removed with every store "
+    "fault, then really removed in every order; a panic inside the project's code while it handles a call is a NoPanic verdict."),
+    "C16": (" Also: two concurrent applies of independent changes with the first one held inside its critical section, an "
+    "in-place apply over several processors one of which cannot open (all swaps undone; the configuration in force is checked record by "
+    "record), and a Start landing between the apply's running-check and its import (store gate at the import's begin). Design level: "
+    "LiveApply.tla (lock / verify / authorise / drain / import / restart, concurrent applies, environment starts) is model-checked; the "
+    "idealised protocol holds, verify-before-lock and Start-not-excluded are refuted."),
+    "C18": " Requests are also made on a warm Service that has already served every carved-out (IP, port) pair.",
+    "C02": (" SourcePersist.tla also models the error-channel send of a failed flush (guarded send: every callback returns; the "
+    "code's plain send is refuted - observation O1 in DESIGN.md); the data-path families include the outcome x fault matrix."),
+}
